@@ -1,5 +1,6 @@
 mod c13;
+mod lifecycle;
 
 fn main() {
-    vmon::run_main(&[("C13", c13::run)]);
+    vmon::run_main(&[("C01", lifecycle::run_c01), ("C02", lifecycle::run_c02), ("C13", c13::run)]);
 }
